@@ -218,7 +218,7 @@ fn real_decode<T: serde::de::DeserializeOwned + Serialize>(bytes: &[u8]) -> Resu
         return Err("from_bytes and take_from_bytes give different values".into());
     }
     let mut scratch = vec![0u8; bytes.len() + 8];
-    let rd = crate::ops_io::SchedReader { data: ext.clone(), pos: 0, fault: None, rng: Rng::new(7), whole: false, one: false };
+    let rd = crate::ops_io::SchedReader { data: ext.clone(), pos: 0, fault: None, rng: Rng::new(7), whole: false, one: false, transient: false };
     let (v3, (rd, _)) = postcard::from_io::<T, _>((rd, &mut scratch[..])).map_err(|e| format!("from_io: {:?}", e))?;
     if rd.pos != bytes.len() || postcard::to_allocvec(&v3).ok().as_ref() != Some(&out) {
         return Err("from_io consumed a different number of bytes or gave a different value".into());
